@@ -4,6 +4,10 @@ import HdVerif.Proofs.Effects
 import HdVerif.Generated.T8h
 /-! # C02  Segment selection, ordering, combining and relabelling are exact
 
+Error kinds in the statements (`.error .runtime`, `.value`, `.key`) are the model's labels for the refusals; the
+correspondence compares ok-vs-refused only (e.g. `get_pixels_by_source_frame` raises ValueError for a frame number
+beyond the referenced ones where the model says `.key`).
+
 Property theorems only.  The statements are about `SegRead.readCore` (`Segmentation._get_pixels_by_seg_frame`) and
 `SegRead.read` (the validation the five public entry points share), whose decisions — largest output value,
 default output dtype, `need_remap`, intermediate dtype, refusals — are the definitions *regenerated from /repo's
@@ -185,7 +189,9 @@ theorem labelmap_stacked_channel (st : Stored) (rq : Req) (wf : WfLabel st) (hc 
 
 /-- **Stacked read, BINARY and FRACTIONAL**: channel `c` of output frame `j` is the plane stored for the `c`-th
 requested segment at the `j`-th requested stack value (all zero when the object has no such frame) — any subset, any
-order; for a rescaled FRACTIONAL read every entry means value / MaximumFractionalValue. -/
+order; for a rescaled FRACTIONAL read every entry means value / MaximumFractionalValue (an exact rational here; the code
+divides in the float output dtype, so its array agrees with this up to float rounding — the correspondence compares with
+tolerance 2^-20). -/
 theorem stacked_channel (st : Stored) (rq : Req) (wf : WfStack st) (hc : rq.combine = false)
     (hsub : ∀ s ∈ rq.segs, s ∈ st.segNums) (hcap : ceiling st rq ≤ (chosenDtype st rq).maxVal)
     (hfl : willRescale st rq = true → (chosenDtype st rq).isFloat = true) :
@@ -220,10 +226,48 @@ theorem fractional_combine_requires_rescale (st : Stored) (rq : Req) (hty : st.t
     have : willRescale st rq = false := by unfold willRescale; simp [hc]
     simp [this, hc, hr, hty, bind, Except.bind]
 
+/-- **A stored value the output dtype cannot hold is refused, not wrapped** (`_check_output_range` of the frame
+transform): an uncombined, unrescaled read of a BINARY / FRACTIONAL object into an integer dtype narrower than the
+stored one raises when a frame it uses holds a value above the dtype's maximum (only possible for objects whose values
+exceed what their own attributes promise; well-formed objects never get here, see `stacked_channel`). -/
+theorem stored_value_beyond_dtype_refused (st : Stored) (rq : Req) (hnl : st.type ≠ .labelmap)
+    (hsub : ∀ s ∈ rq.segs, s ∈ st.segNums) (hc : rq.combine = false) (hw : willRescale st rq = false)
+    (hact : rangeCheckActive st.bitsStored (chosenDtype st rq) = true) (f : SFrame) (hf : f ∈ st.frames)
+    (hk : f.key ∈ rq.keys) (hs : f.seg ∈ rq.segs) (p : Nat) (hp : p ∈ f.pix)
+    (hbig : (p : Int) > (chosenDtype st rq).maxVal) : readCore st rq = .error .value := by
+  rw [readCore_eq st rq hsub]
+  by_cases hcap : ceiling st rq > (chosenDtype st rq).maxVal
+  · simp [hcap]
+  · simp only [hcap, ↓reduceIte, hnl, hw]
+    unfold stackRead
+    rw [stackDecision_eq]
+    simp only [hc, Bool.false_and, Bool.false_eq_true, ↓reduceIte, remapValues, remapDup, bind, Except.bind, ofCode_code]
+    have hall : (rq.keys.all fun k => (joinRows st.frames (chanTable rq.segs none) k).all
+        fun r => frameInRange st.bitsStored (chosenDtype st rq) r.1) = false := by
+      rw [List.all_eq_false]
+      refine ⟨f.key, hk, ?_⟩
+      rw [Bool.not_eq_true, List.all_eq_false]
+      obtain ⟨i, hi⟩ := List.mem_iff_getElem?.mp hs
+      refine ⟨(f, i), ?_, ?_⟩
+      · unfold joinRows
+        rw [List.mem_flatMap]
+        refine ⟨f, List.mem_filter.mpr ⟨hf, by simp⟩, ?_⟩
+        rw [List.mem_map]
+        refine ⟨(i, f.seg), List.mem_filter.mpr ⟨?_, by simp⟩, rfl⟩
+        unfold chanTable
+        exact (mem_zip_range rq.segs i f.seg).mpr hi
+      · unfold frameInRange
+        have : (f.pix.all fun q => decide ((q : Int) ≤ (chosenDtype st rq).maxVal)) = false := by
+          rw [List.all_eq_false]
+          exact ⟨p, hp, by simpa using hbig⟩
+        simp [hact, this]
+    simp only [hall, Bool.not_false, ↓reduceIte]
+
 /-- **Overlap refused**: with the check on, a combined read in which two different requested segments share a
 pixel of a requested plane raises the RuntimeError (BINARY, and FRACTIONAL with 0/max-valued frames). -/
 theorem overlap_refused (st : Stored) (rq : Req) (wf : WfStack st) (hc : rq.combine = true) (hnd : rq.segs.Nodup)
-    (hsub : ∀ s ∈ rq.segs, s ∈ st.segNums) (hbin : AllBinary st) (hfr : st.type = .fractional → rq.rescale = true)
+    (hsub : ∀ s ∈ rq.segs, s ∈ st.segNums) (hbin : UsedBinary st rq.keys rq.segs)
+    (hfr : st.type = .fractional → rq.rescale = true)
     (hcap : ceiling st rq ≤ (chosenDtype st rq).maxVal) (hskip : rq.skipOverlap = false)
     (k : Nat) (hk : k ∈ rq.keys) (s₁ s₂ i : Nat) (h1 : s₁ ∈ rq.segs) (h2 : s₂ ∈ rq.segs) (hne : s₁ ≠ s₂)
     (hc1 : covers st k s₁ i) (hc2 : covers st k s₂ i) : readCore st rq = .error .runtime := by
@@ -239,22 +283,28 @@ theorem overlap_refused (st : Stored) (rq : Req) (wf : WfStack st) (hc : rq.comb
 per requested stack value, and pixel `i` of frame `j` is the largest output value (own number, or 1-based position
 under `relabel`) among the requested segments covering it, 0 when none does. -/
 theorem combined_value (st : Stored) (rq : Req) (wf : WfStack st) (hc : rq.combine = true) (hnd : rq.segs.Nodup)
-    (hsub : ∀ s ∈ rq.segs, s ∈ st.segNums) (hbin : AllBinary st) (hfr : st.type = .fractional → rq.rescale = true)
+    (hsub : ∀ s ∈ rq.segs, s ∈ st.segNums) (hbin : UsedBinary st rq.keys rq.segs)
+    (hfr : st.type = .fractional → rq.rescale = true)
     (hcap : ceiling st rq ≤ (chosenDtype st rq).maxVal)
     (hno : rq.skipOverlap = true ∨ ∀ k ∈ rq.keys, NoOverlap st rq.segs k) :
-    ∃ out, readCore st rq = .ok (.combined out) ∧ out.length = rq.keys.length ∧
+    ∃ out, readCore st rq = .ok (.combined out) ∧ out.length = rq.keys.length ∧ (∀ fr ∈ out, fr.length = st.npix) ∧
       ∀ j (hj : j < rq.keys.length) (hj' : j < out.length) i, i < st.npix →
         ∃ v, (out[j])[i]? = some v ∧ IsCombinedValue st rq.segs rq.relabel rq.keys[j] i v := by
   rw [capacity_accepted st rq hsub hcap]
   simp only [wf.type, ↓reduceIte]
   have hw : willRescale st rq = false := by unfold willRescale; simp [hc]
   rw [hw, stackRead_combined_ok st rq _ wf hc hnd hsub hbin hfr hcap hno]
-  refine ⟨_, rfl, by simp, ?_⟩
-  intro j hj hj' i hi
-  simp only [List.getElem_map]
   have hcapV : ∀ s ∈ rq.segs, outVal rq.segs rq.relabel s ≤ (chosenDtype st rq).maxVal :=
     fun s hs => Int.le_trans (outVal_le_ceiling st rq hc s hs) hcap
-  exact combined_pixel st wf rq.segs rq.relabel hnd rq.keys[j] hsub hbin _ hcapV i hi
+  refine ⟨_, rfl, by simp, ?_, ?_⟩
+  · intro fr hfr
+    obtain ⟨k, hk, rfl⟩ := List.mem_map.mp hfr
+    exact maxFold_length st.npix _ _ (rows_ok st wf rq.segs rq.relabel hnd k hsub
+      (fun f hf hfk hs => hbin f hf (hfk ▸ hk) hs) _ hcapV) (by simp [zeros])
+  · intro j hj hj' i hi
+    simp only [List.getElem_map]
+    exact combined_pixel st wf rq.segs rq.relabel hnd rq.keys[j] hsub
+      (fun f hf hfk hs => hbin f hf (hfk ▸ List.getElem_mem hj) hs) _ hcapV i hi
 
 /-- reading `IsCombinedValue`: a pixel no requested segment covers is 0 — in particular **segments that were not
 requested never appear** — and, without overlap, a pixel covered by requested segment `s` holds `outVal s`. -/
@@ -287,13 +337,13 @@ theorem combined_value_unique (st : Stored) (segs : List Nat) (relabel : Bool) (
 loop returns the same array, or the same refusal, for every permutation of those rows (the query only says
 `ORDER BY F.OutputFrameIndex`). -/
 theorem combine_order_independent (st : Stored) (rq : Req) (d : DType) (wf : WfStack st) (hnd : rq.segs.Nodup)
-    (hsub : ∀ s ∈ rq.segs, s ∈ st.segNums) (hbin : AllBinary st) (hc : rq.combine = true)
-    (hcap : ceiling st rq ≤ d.maxVal) (k : Nat) (rows' : List (SFrame × Nat))
+    (hsub : ∀ s ∈ rq.segs, s ∈ st.segNums) (hbin : UsedBinary st rq.keys rq.segs) (hc : rq.combine = true)
+    (hcap : ceiling st rq ≤ d.maxVal) (k : Nat) (hk : k ∈ rq.keys) (rows' : List (SFrame × Nat))
     (hperm : rows'.Perm (joinRows st.frames (chanTable rq.segs (remapValues rq.segs true rq.relabel)) k)) :
     combineRow st.type st.mfv rq.skipOverlap d st.npix rows' =
       combineRow st.type st.mfv rq.skipOverlap d st.npix
         (joinRows st.frames (chanTable rq.segs (remapValues rq.segs true rq.relabel)) k) :=
-  combineRow_perm st wf rq.segs rq.relabel hnd k hsub hbin d
+  combineRow_perm st wf rq.segs rq.relabel hnd k hsub (fun f hf hfk hs => hbin f hf (hfk ▸ hk) hs) d
     (fun s hs => Int.le_trans (outVal_le_ceiling st rq hc s hs) hcap) rq.skipOverlap rows' hperm
 
 /-- **Truly fractional frames cannot be combined**: when a frame that the combined read uses (requested stack value,
@@ -391,21 +441,118 @@ theorem combine_at_construction (nums chans : List Nat) (hlen : chans.length = n
 example : labelPixel [3, 700, 9] [0, 1, 0] = .ok 700 := by decide
 example : labelPixel [5] [1] = .ok 5 := by decide
 
-/-! ## Missing source frames -/
+/-! ## Missing source frames
 
-/-- **Refused unless asserted**: when a requested stack value is unknown to the object (a source instance it does
-not reference, a source frame number above every referenced one, dimension index values no frame has) and the
-caller does not assert that missing frames are empty, the read is refused — whatever else is requested. -/
+"Absent from the object" means **unknown to the object's reference tables**, for all three stack entry points
+(`missingRefused`): by source instance an instance the object does not reference (`st.refs`, its `InstanceUIDs` table);
+by source frame an unreferenced instance, or a frame number above the highest referenced one; by dimension index values
+a position no frame has.  A *referenced* source without any frame (its plane was empty and omitted) is known: it reads as
+empty without any assertion — that is what the library documents and does. -/
+
+/-- **Unknown ⇒ refused unless asserted**, spelled out per entry point in terms of the object: a requested instance the
+object does not reference; a frame request for an unreferenced instance or for a number above every referenced frame
+number; index values no stored frame has. -/
+theorem unknown_source_refused (st : Stored) (rq : Req) :
+    (∀ k ∈ rq.keys, k ∉ st.refs → ∃ e, SegRead.read st .bySource false rq = .error e) ∧
+    (∀ uid, uid ∉ st.refs → ∃ e, SegRead.read st (.frame uid) false rq = .error e) ∧
+    (∀ uid, ∀ k ∈ rq.keys, st.frames ≠ [] → (∀ f ∈ st.frames, f.key < k) →
+      ∃ e, SegRead.read st (.frame uid) false rq = .error e) ∧
+    (∀ k ∈ rq.keys, (∀ f ∈ st.frames, f.key ≠ k) → ∃ e, SegRead.read st .div false rq = .error e) := by
+  refine ⟨?_, ?_, ?_, ?_⟩
+  · intro k hk hn
+    apply read_missing_refused
+    simp only [missingRefused, List.any_eq_true]
+    exact ⟨k, hk, by simpa using hn⟩
+  · intro uid hn
+    apply read_missing_refused
+    have : st.refs.contains uid = false := by simpa using hn
+    simp only [missingRefused, this, Bool.not_false, Bool.true_or]
+  · intro uid k hk hne hall
+    apply read_missing_refused
+    have hmax : listMax (st.frames.map (·.key)) < k := by
+      have := listMax_le_of_forall (st.frames.map (·.key)) (k - 1) (by
+        intro x hx
+        obtain ⟨f, hf, rfl⟩ := List.mem_map.mp hx
+        have := hall f hf; omega)
+      have hk0 : 0 < k := by
+        cases hfr : st.frames with
+        | nil => exact absurd hfr hne
+        | cons f t => have := hall f (by rw [hfr]; simp); omega
+      omega
+    simp only [missingRefused, Bool.or_eq_true, List.any_eq_true]
+    right
+    exact ⟨k, hk, by simpa using hmax⟩
+  · intro k hk hall
+    apply read_missing_refused
+    simp only [missingRefused, List.any_eq_true]
+    refine ⟨k, hk, ?_⟩
+    have : ¬ k ∈ st.frames.map (·.key) := by
+      intro hm
+      obtain ⟨f, hf, hfk⟩ := List.mem_map.mp hm
+      exact hall f hf hfk
+    simpa using this
+
+/-- the same in one statement over all entry points: `missingRefused st mode keys` is computed from the object's own
+tables (`st.refs`, the keys of `st.frames`), see its definition — `unknown_source_refused` spells it out -/
 theorem missing_refused_unless_asserted (st : Stored) (mode : Mode) (rq : Req)
     (hm : missingRefused st mode rq.keys = true) : ∃ e, SegRead.read st mode false rq = .error e :=
   read_missing_refused st mode rq hm
 
-/-- **The assertion changes nothing else**: with the assertion, or when every requested value is known, the entry
-point is exactly `_get_pixels_by_seg_frame` on the request … -/
+/-- a stored frame's source is never refused (the reference table covers the frames) -/
+theorem stored_sources_are_known (st : Stored) (hcov : RefsCover st) (keys : List Nat)
+    (h : ∀ k ∈ keys, ∃ f ∈ st.frames, f.key = k) : missingRefused st .bySource keys = false := by
+  simp only [missingRefused, List.any_eq_false]
+  intro k hk
+  obtain ⟨f, hf, rfl⟩ := h k hk
+  have := hcov f hf
+  simpa using this
+
+/-- **Known ⇒ read, assertion or not**: when every requested value is known to the reference tables (or the caller
+asserts), the entry point is exactly `_get_pixels_by_seg_frame` on the request, over the object's frames (over no
+frames for an unreferenced instance under the assertion) … -/
 theorem asserted_or_known_reads (st : Stored) (mode : Mode) (a : Bool) (rq : Req) (h1 : rq.segs ≠ [])
     (h2 : rq.keys ≠ []) (h3 : ∀ k ∈ rq.keys, k ≠ 0) (hu : framesUnique st = true)
-    (hm : a = true ∨ missingRefused st mode rq.keys = false) : SegRead.read st mode a rq = readCore st rq :=
+    (hm : a = true ∨ missingRefused st mode rq.keys = false) :
+    SegRead.read st mode a rq = readCore (effective st mode) rq :=
   read_eq_readCore st mode a rq h1 h2 h3 hu hm
+
+/-- **The positive companion — referenced but frameless reads as empty WITHOUT the assertion**: by source instance,
+when all requested instances are referenced, the read is not refused for want of the assertion; the plane of a
+referenced instance that has no frame is all zero (`rawLabels` / `segPlane`), so it contributes zeros to every
+result theorem above. -/
+theorem referenced_frameless_reads_empty (st : Stored) (rq : Req) (h1 : rq.segs ≠ []) (h2 : rq.keys ≠ [])
+    (h3 : ∀ k ∈ rq.keys, k ≠ 0) (hu : framesUnique st = true) (href : ∀ k ∈ rq.keys, k ∈ st.refs) :
+    SegRead.read st .bySource false rq = readCore st rq ∧
+    ∀ k, (∀ f ∈ st.frames, f.key ≠ k) →
+      rawLabels st k = List.replicate st.npix 0 ∧ ∀ s, segPlane st k s = List.replicate st.npix 0 := by
+  constructor
+  · have := read_eq_readCore st .bySource false rq h1 h2 h3 hu (Or.inr (by
+      simp only [missingRefused, List.any_eq_false]
+      intro k hk; simpa using href k hk))
+    simpa [effective] using this
+  · intro k hk
+    constructor
+    · unfold rawLabels
+      have : st.frames.filter (fun f => f.key == k) = [] := by
+        rw [List.filter_eq_nil_iff]; intro f hf; simpa using hk f hf
+      rw [this]; rfl
+    · intro s
+      unfold segPlane
+      have : st.frames.find? (fun f => f.key == k && f.seg == s) = none := by
+        rw [List.find?_eq_none]; intro f hf
+        have := hk f hf
+        simp [this]
+      rw [this]
+
+/-- by source frame with an instance the object does not reference, under the assertion: no frame is used, every
+plane is empty -/
+theorem unreferenced_instance_asserted_reads_empty (st : Stored) (uid : Nat) (hn : uid ∉ st.refs) (rq : Req)
+    (h1 : rq.segs ≠ []) (h2 : rq.keys ≠ []) (h3 : ∀ k ∈ rq.keys, k ≠ 0) (hu : framesUnique st = true) :
+    SegRead.read st (.frame uid) true rq = readCore { st with frames := [] } rq := by
+  have := read_eq_readCore st (.frame uid) true rq h1 h2 h3 hu (Or.inl rfl)
+  have hc : st.refs.contains uid = false := by simpa using hn
+  simp only [effective, hc, Bool.false_eq_true, ↓reduceIte] at this
+  exact this
 
 /-- … in which a stack value without any stored frame reads as an all-zero plane (label maps). -/
 theorem absent_plane_reads_empty (st : Stored) (k : Nat) (h : ∀ f ∈ st.frames, f.key ≠ k) (segs : List Nat)
@@ -469,11 +616,13 @@ example : ∃ σ σ' : St, (∀ x, σ.env x = some 0 → x = 0) ∧ Exec exInPla
 /-! ## Metadata search -/
 
 /-- **Search is sound and complete, in sequence order**: `get_segment_numbers` returns exactly the numbers of the
-non-background items of the SegmentSequence that meet every given criterion. -/
-theorem search_sound_complete (descs : List Desc) (ppv : Option Nat) (f : Filter)
+non-background items of the SegmentSequence that meet every given criterion.  Codes are compared as pydicom compares
+them (`matchesFilter` uses `Gen.pydCodeEq`, regenerated from pydicom's `Code.__eq__`): retired SRT values are mapped to
+SCT through `m` (= `snomed_mapping`, any table), and value, scheme designator and scheme version must then agree. -/
+theorem search_sound_complete (m : Mapping) (descs : List Desc) (ppv : Option Nat) (f : Filter)
     (ha : ∀ a, f.algo = some a → a ∈ algoValues) :
-    getSegmentNumbers descs ppv f =
-      .ok ((descs.filter fun d => matchesFilter f d && !isBackground ppv d).map (·.number)) := by
+    getSegmentNumbers m descs ppv f =
+      .ok ((descs.filter fun d => matchesFilter m f d && !isBackground ppv d).map (·.number)) := by
   unfold getSegmentNumbers
   have : badAlgo f = false := by
     unfold badAlgo
@@ -483,10 +632,18 @@ theorem search_sound_complete (descs : List Desc) (ppv : Option Nat) (f : Filter
   simp only [this, Bool.false_eq_true, ↓reduceIte, numberFilterFuncs_all]
 
 /-- an algorithm type outside the enumeration is refused -/
-theorem search_bad_algorithm_type_refused (descs : List Desc) (ppv : Option Nat) (f : Filter) (a : String)
-    (h : f.algo = some a) (hn : a ∉ algoValues) : getSegmentNumbers descs ppv f = .error .value := by
+theorem search_bad_algorithm_type_refused (m : Mapping) (descs : List Desc) (ppv : Option Nat) (f : Filter) (a : String)
+    (h : f.algo = some a) (hn : a ∉ algoValues) : getSegmentNumbers m descs ppv f = .error .value := by
   unfold getSegmentNumbers badAlgo
   simp [h, hn]
+
+/-- what code matching means (C17 proves the laws of this equality; here only its use): an SRT code matches its SCT
+alias, and a code carrying a scheme version does not match the versionless code -/
+theorem code_matching_is_pydicom_equality (m : Mapping) (srt sct : String) (hm : m "SRT" srt = some sct) (ver : String) :
+    pydCodeEq m ⟨some srt, some "SRT", none, none⟩ ⟨some sct, some "SCT", none, none⟩ = true ∧
+    pydCodeEq m ⟨some sct, some "SCT", none, some ver⟩ ⟨some sct, some "SCT", none, none⟩ = false := by
+  unfold pydCodeEq dictHas dictGet
+  simp [hm]
 
 /-- `segment_numbers` / `number_of_segments`: the non-background items, counted once each. -/
 theorem segment_numbers_spec (descs : List Desc) (ppv : Option Nat) :
@@ -501,11 +658,11 @@ theorem segment_numbers_spec (descs : List Desc) (ppv : Option Nat) :
 
 /-- **Tracking identifiers**: exactly the (id, uid) pairs of items that carry both and meet every criterion, each
 pair once. -/
-theorem tracking_ids_sound_complete (descs : List Desc) (f : Filter)
+theorem tracking_ids_sound_complete (m : Mapping) (descs : List Desc) (f : Filter)
     (hf : f.label = none ∧ f.trackingUid = none ∧ f.trackingId = none)
     (ha : ∀ a, f.algo = some a → a ∈ algoValues) :
-    ∃ l, getTrackingIds descs f = .ok l ∧ l.Nodup ∧
-      ∀ p, p ∈ l ↔ ∃ d ∈ descs, d.trackingId = some p.1 ∧ d.trackingUid = some p.2 ∧ matchesFilter f d = true := by
+    ∃ l, getTrackingIds m descs f = .ok l ∧ l.Nodup ∧
+      ∀ p, p ∈ l ↔ ∃ d ∈ descs, d.trackingId = some p.1 ∧ d.trackingUid = some p.2 ∧ matchesFilter m f d = true := by
   unfold getTrackingIds
   have : badAlgo f = false := by
     unfold badAlgo
@@ -523,15 +680,15 @@ theorem tracking_ids_sound_complete (descs : List Desc) (f : Filter)
     · cases h
     · cases h
     · cases h
-    · rw [trackingFilterFuncs_all f d hf] at h
-      by_cases hm : matchesFilter f d = true
+    · rw [trackingFilterFuncs_all m f d hf] at h
+      by_cases hm : matchesFilter m f d = true
       · simp only [hm, ↓reduceIte, Option.some.injEq] at h
         subst h
         exact ⟨rfl, rfl, hm⟩
       · simp [hm] at h
   · rintro ⟨d, hd, hi, hu, hm⟩
     refine ⟨d, hd, ?_⟩
-    simp only [hi, hu, trackingFilterFuncs_all f d hf, hm, ↓reduceIte]
+    simp only [hi, hu, trackingFilterFuncs_all m f d hf, hm, ↓reduceIte]
 
 /-! ## Non-vacuity: concrete objects meeting the hypotheses
 
@@ -571,9 +728,15 @@ def exBin : Stored :=
     frames := [⟨7, 2, [0, 1, 1]⟩, ⟨7, 1, [1, 1, 0]⟩, ⟨8, 3, [0, 0, 1]⟩, ⟨8, 1, [1, 0, 0]⟩] }
 
 theorem exBin_wf : WfStack exBin :=
-  { type := by decide, unique := by decide, range := by decide, mfv := by decide, pos := by decide, len := by decide }
+  { type := by decide, unique := by decide, range := by decide, mfv := by decide, pos := by decide, len := by decide,
+    bits := by decide }
 
-theorem exBin_binary : AllBinary exBin := by unfold AllBinary; decide
+theorem exBin_binary (keys segs : List Nat) : UsedBinary exBin keys segs := by
+  have h : ∀ f ∈ exBin.frames, ∀ p ∈ f.pix, p ≤ 1 := by decide
+  intro f hf _ _
+  have hty : ¬ exBin.type = SegType.fractional := by decide
+  simp only [hty, ↓reduceIte]
+  exact h f hf
 
 example : readCore exBin { keys := [8, 7, 9], segs := [3, 1], combine := false, relabel := false, rescale := true, skipOverlap := false, dtype := none } =
     .ok (.stacked 1 [[[0, 0, 1], [1, 0, 0]], [[0, 0, 0], [1, 1, 0]], [[0, 0, 0], [0, 0, 0]]]) := by
@@ -582,12 +745,12 @@ example : readCore exBin { keys := [8, 7, 9], segs := [3, 1], combine := false, 
 
 /-- segments 1 and 2 share pixel 1 at stack value 7: refused … -/
 example : readCore exBin { keys := [8, 7], segs := [2, 1], combine := true, relabel := false, rescale := true, skipOverlap := false, dtype := none } = .error .runtime :=
-  overlap_refused exBin _ exBin_wf rfl (by decide) (by decide) exBin_binary (by decide) (by decide) rfl 7 (by decide)
+  overlap_refused exBin _ exBin_wf rfl (by decide) (by decide) (exBin_binary _ _) (by decide) (by decide) rfl 7 (by decide)
     2 1 1 (by decide) (by decide) (by decide) ⟨1, by decide, by decide⟩ ⟨1, by decide, by decide⟩
 
 /-- … but reading 3 and 1 (which do not overlap anywhere) is accepted -/
 example : ∃ out, readCore exBin { keys := [8, 7], segs := [3, 1], combine := true, relabel := true, rescale := true, skipOverlap := false, dtype := none } = .ok (.combined out) ∧ out.length = 2 := by
-  obtain ⟨out, h, hl, _⟩ := combined_value exBin { keys := [8, 7], segs := [3, 1], combine := true, relabel := true, rescale := true, skipOverlap := false, dtype := none } exBin_wf rfl (by decide) (by decide) exBin_binary
+  obtain ⟨out, h, hl, _⟩ := combined_value exBin { keys := [8, 7], segs := [3, 1], combine := true, relabel := true, rescale := true, skipOverlap := false, dtype := none } exBin_wf rfl (by decide) (by decide) (exBin_binary _ _)
       (by decide) (by decide) (Or.inr (by
         intro k hk s₁ h1 s₂ h2 hne i ⟨⟨p, hp, hpp⟩, ⟨q, hq, hqq⟩⟩
         simp only [List.mem_cons, List.not_mem_nil, or_false] at hk h1 h2
@@ -601,12 +764,51 @@ example : ∃ out, readCore exBin { keys := [8, 7], segs := [3, 1], combine := t
 
 example : (readCore exBin { keys := [8, 7], segs := [3, 1], combine := true, relabel := true, rescale := true, skipOverlap := false, dtype := none }) = .ok (.combined [[2, 0, 1], [2, 2, 0]]) := by decide
 
-example : getSegmentNumbers
-    [⟨0, "Background", ("B", "DCM"), ("B", "DCM"), "MANUAL", none, none⟩,
-     ⟨3, "liver", ("T-1", "99V"), ("T-2", "99V"), "MANUAL", some "a", some "1.2"⟩,
-     ⟨7, "liver", ("T-1", "99V"), ("T-3", "99V"), "AUTOMATIC", none, none⟩] (some 0)
-    { label := some "liver", category := some ("T-1", "99V") } = .ok [3, 7] := by
-  rw [search_sound_complete _ _ _ (by simp)]
+/-- the audit's witness: categories 1 = (T-D0050, SRT), 2 = (85756007, SCT), 3 = (…, SCT, version 2020), 4 = (…, 2021);
+searching for (85756007, SCT) finds the SRT alias and the versionless code, not the versioned ones -/
+def exMap : Mapping := fun s v => if s == "SRT" && v == "T-D0050" then some "85756007" else none
+
+def exDescs : List Desc :=
+  [⟨1, "a", ⟨some "T-D0050", some "SRT", none, none⟩, ⟨some "T-2", some "99V", none, none⟩, "MANUAL", some "t", some "1.2"⟩,
+   ⟨2, "b", ⟨some "85756007", some "SCT", none, none⟩, ⟨some "T-2", some "99V", none, none⟩, "MANUAL", none, none⟩,
+   ⟨3, "c", ⟨some "85756007", some "SCT", none, some "2020"⟩, ⟨some "T-2", some "99V", none, none⟩, "AUTOMATIC", none, none⟩,
+   ⟨4, "d", ⟨some "85756007", some "SCT", none, some "2021"⟩, ⟨some "T-2", some "99V", none, none⟩, "MANUAL", some "t", some "1.3"⟩]
+
+example : getSegmentNumbers exMap exDescs none { category := some ⟨some "85756007", some "SCT", none, none⟩ } = .ok [1, 2] := by
+  rw [search_sound_complete _ _ _ _ (by simp)]
   decide
+
+example : ∃ l, getTrackingIds exMap exDescs { algo := some "MANUAL" } = .ok l ∧ l = [("t", "1.2"), ("t", "1.3")] := by
+  refine ⟨_, rfl, by decide⟩
+
+/-! A FRACTIONAL object (MaximumFractionalValue 100), referenced sources 7, 8, 9 of which 9 has no frame. -/
+
+def exFrac : Stored :=
+  { type := .fractional, segNums := [1, 2], bitsStored := 8, mfv := 100, bg := 0, npix := 2,
+    frames := [⟨7, 1, [50, 100]⟩, ⟨7, 2, [0, 25]⟩, ⟨8, 1, [100, 0]⟩], refs := [7, 8, 9] }
+
+theorem exFrac_wf : WfStack exFrac :=
+  { type := by decide, unique := by decide, range := by decide, mfv := by decide, pos := by decide, len := by decide,
+    bits := by decide }
+
+/-- rescaled stacked read (values mean value / 100; the code divides in float32, so the array agrees up to float
+rounding), reversed order, the frameless referenced source 9 reads as zeros without any assertion -/
+example : SegRead.read exFrac .bySource false { keys := [9, 7], segs := [2, 1], combine := false, relabel := false, rescale := true, skipOverlap := false, dtype := none } =
+    .ok (.stacked 100 [[[0, 0], [0, 0]], [[0, 25], [50, 100]]]) := by
+  rw [(referenced_frameless_reads_empty exFrac _ (by decide) (by decide) (by decide) (by decide) (by decide)).1,
+    stacked_channel exFrac _ exFrac_wf rfl (by decide) (by decide) (by decide)]
+  decide
+
+/-- an instance the object does not reference is refused without the assertion … -/
+example : ∃ e, SegRead.read exFrac .bySource false { keys := [7, 5], segs := [1], combine := false, relabel := false, rescale := true, skipOverlap := false, dtype := none } = .error e :=
+  (unknown_source_refused exFrac _).1 5 (by decide) (by decide)
+
+/-- … and a rescaled read into an integer dtype, or raw values into int8 (100 fits, so the capacity check passes;
+into bool it does not) -/
+example : readCore exFrac { keys := [7], segs := [1], combine := false, relabel := false, rescale := true, skipOverlap := false, dtype := some .u8 } = .error .value :=
+  rescaled_requires_float exFrac _ (by decide) (by decide) (by decide) (by decide)
+
+example : readCore exFrac { keys := [7], segs := [1], combine := false, relabel := false, rescale := false, skipOverlap := false, dtype := some .bool } = .error .value :=
+  capacity_refused exFrac _ (by decide) (by decide)
 
 end HdVerif.C02
